@@ -138,6 +138,21 @@ fn pipeline(s: &Server, codes: &[u16]) -> Option<String> {
     if runs != got.len() { return Some(format!("{desc} expected={}-handler-runs actual={runs}", got.len())); }
     None
 }
+/// C09 on a kept-alive connection: several requests with declared bodies sent in one write -- each handler run sees
+/// exactly its own declared bytes (bytes of the next request already buffered behind a body are not part of it)
+fn pipebody(s: &Server, small: usize, lens: &[usize]) -> Option<String> {
+    let desc = format!("pipebody S={small} lens={lens:?}");
+    let mut msg = Vec::new();
+    for l in lens { msg.extend_from_slice(format!("POST /m/100000 HTTP/1.1\r\ncontent-length: {l}\r\n\r\n").as_bytes()); msg.extend_from_slice(&body_of(*l)); }
+    s.log.lock().unwrap().clear();
+    let out = exchange(s, &msg, None);
+    let st: Vec<u16> = statuses(&out).into_iter().filter(|c| *c != 100).collect();
+    if st != vec![200u16; lens.len()] { return Some(format!("{desc} expected={}-responses-200 actual={st:?}", lens.len())); }
+    let seen: Vec<(Option<u64>, u64)> = s.log.lock().unwrap().iter().filter(|e| !e.1).map(|e| (e.2, e.3)).collect();
+    let want: Vec<(Option<u64>, u64)> = lens.iter().map(|l| (Some(*l as u64), checksum(&body_of(*l)))).collect();
+    if seen != want { return Some(format!("{desc} expected=each-handler-sees-its-own-body {want:?} actual={seen:?}")); }
+    None
+}
 fn main() {
     std::panic::set_hook(Box::new(|_| {}));
     let args: Vec<String> = std::env::args().collect();
@@ -146,6 +161,7 @@ fn main() {
         let w = args[2..].join(" ");
         let n = nums(&w);
         let r = if w.starts_with("upload") { let nc = w.contains("nocache=1"); let s = start2(n[0] as usize, !nc); upload2(&s, n[0] as usize, n[1], n[2] as usize, w.contains("declared=true"), w.contains("split_head_body=true"), nc) }
+            else if w.starts_with("pipebody") { let s = start(n[0] as usize); let lens: Vec<usize> = n[1..].iter().map(|x| *x as usize).collect(); pipebody(&s, n[0] as usize, &lens) }
             else if w.starts_with("bodyfile") { let s = start(100); short_file2(&s, n[0] as usize, n[1] as usize, w.contains("status=503")) }
             else { let s = start(100); let codes: Vec<u16> = n.iter().map(|x| *x as u16).collect(); pipeline(&s, &codes) };
         match r { Some(m) => { println!("WITNESS {m}"); std::process::exit(1) } None => { println!("OK witness no longer fails"); std::process::exit(0) } }
@@ -168,6 +184,9 @@ fn main() {
             for (d, a) in [(2000usize, 2000usize), (2000, 0), (2000, 1), (2000, 1000), (2000, 1999), (70000, 69999), (1, 0)] { n += 1; if let Some(w) = short_file(&s, d, a) { if found.len() < 6 { found.push(w) } } }
             for (d, a) in [(2000usize, 2000usize), (2000, 0), (2000, 1000), (100, 10)] { n += 1; if let Some(w) = short_file2(&s, d, a, true) { if found.len() < 6 { found.push(w) } } }
             for codes in [vec![200u16], vec![200, 200, 200], vec![200, 404, 200], vec![500, 200], vec![200, 204, 503, 200], vec![299, 399, 400]] { n += 1; if let Some(w) = pipeline(&s, &codes) { if found.len() < 6 { found.push(w) } } }
+        }
+        if small >= 1 {
+            for lens in [vec![3usize, 2], vec![1, 1, 1], vec![0, 5, 0, 7], vec![small, 1, small], vec![small + 1, 2, small + 50, 3], vec![2, small + 1, 2], vec![3000, 1, 9000, 2]] { n += 1; if let Some(w) = pipebody(&s, small, &lens) { if found.len() < 6 { found.push(w) } } }
         }
         let _ = &s.files;
     }
